@@ -554,17 +554,10 @@ func runC10(rc *RunCtx, redirects bool) {
 			rc.Probe("secret-sent:" + tag.Source)
 			allowed := tag.Origins[origin] || (tag.HostOnly != "" && tag.HostOnly == hostName(r.Host))
 			if !allowed {
-				// http -> https upgrade on the same host name with default
-				// ports: ambiguous under the statement, not demanded.
-				upg := false
-				if r.Scheme == "https" && strings.HasSuffix(origin, ":443") {
-					if tag.Origins["http://"+hostName(r.Host)+":80"] {
-						upg = true
-					}
-				}
-				if upg {
+				// (an http -> https upgrade on the same host name is a change of
+				// scheme and port like any other: judged)
+				if r.Scheme == "https" && strings.HasSuffix(origin, ":443") && tag.Origins["http://"+hostName(r.Host)+":80"] {
 					rc.Probe("http-to-https-upgrade-kept-credentials")
-					continue
 				}
 				var al []string
 				for o := range tag.Origins {
